@@ -3,7 +3,7 @@
    Model: theories/Ons.v (the run* functions of action/ons, data/ons, fee step, session rule). *)
 From Coq Require Import ZArith Ascii String.
 From stdpp Require Import gmap list strings.
-From OL Require Import theories.Ons theories.OnsCheck proofs.OnsProofs.
+From OL Require Import theories.Ons theories.OnsCheck proofs.OnsProofs proofs.OnsInv.
 Local Open Scope Z_scope.
 Local Open Scope string_scope.
 
@@ -143,6 +143,26 @@ Proof.
   eexists. eexists. split; [vm_compute; reflexivity|]. split; [vm_compute; reflexivity|].
   vm_compute. repeat split.
 Qed.
+
+(* ... and it holds outside that trigger: every transaction that is not a purchase meeting an
+   uncommitted sub-name of the purchased name preserves "stored names have >= 2 labels and every
+   sub-name's parent exists and has the same owner"; by induction over histories from the
+   empty registry. *)
+Theorem C20_sub_owner_partial : forall s t,
+  trig_purchase_uncommitted s (t_op t) = false -> sub_owner_inv s -> sub_owner_inv (deliver s t).1.
+Proof. exact deliver_sub_owner_inv. Qed.
+Print Assumptions C20_sub_owner_partial.
+
+Theorem C20_sub_owner_history_partial : forall evs b,
+  no_trigger (init_state b) evs -> sub_owner_inv (run (init_state b) evs).
+Proof. intros evs b. exact (history_sub_owner_inv evs _ (init_sub_owner_inv b)). Qed.
+Print Assumptions C20_sub_owner_history_partial.
+
+(* non-vacuity: the first five events of the witness history (up to and including the
+   registration of a.n.ol) never fire the trigger *)
+Example C20_sub_owner_nonvacuous :
+  no_trigger (init_state {[ 0%N := 1000; 1%N := 1000 ]}) (take 5 C20_witness).
+Proof. vm_compute. repeat split. Qed.
 
 (* non-vacuity: the hypotheses of (1) and (3) are satisfiable by successful, record-changing
    transactions (the paid purchase of the witness history: seller +20, buyer -30-fee) *)
